@@ -265,8 +265,9 @@ def directed_cases(ck):
         for e in ("pl", "fmt", "rq", "compile"):
             add("fixed:H1:%d" % d, e, "from t | derive x = " + "(" * d, **({"target": "sql.generic"} if e == "compile" else {}))
         add("fixed:H1:braces:%d" % d, "pl", "from t | select " + "{(" * d)
-        add("fixed:H1:mixed:%d" % d, "pl", "from t | derive x = " + "(a = (" * d)
-        add("fixed:H1:call:%d" % d, "pl", "from t | derive x = " + "(f x:(" * d)
+        add("fixed:H1:call:%d" % d, "pl", "from t | derive x = " + "(f (" * d)
+        add("fixed:H1:pipe:%d" % d, "pl", "from t | derive x = " + "(a | (" * d)
+        add("fixed:H1:coalesce:%d" % d, "pl", "from t | derive x = " + "(a ?? (" * d)
     # C12-H2 (c8b3817): nesting that no longer fits the line, beyond the depth at which the old formatter hung (30)
     h2 = {
         "pipe": lambda d: "from t | derive x = " + "(a | " * d + "b" + ")" * d,
@@ -292,6 +293,9 @@ def directed_cases(ck):
     add("fixed:N7:wide-tuple", "fmt", "from t | select {" + ", ".join("c%d" % i for i in range(20000)) + "}")
     # C12-N12 (open): tab.len() * indent overflows u16 at indent 32768 (64 MB stack; on 8 MB the stack goes first)
     add("N12:module:32800", "fmt", "module m { " * 32800 + "let x = 1" + " }" * 32800 + "\nfrom t")
+    # C12-N13 (open): a row of a relation literal that is not a tuple
+    for src in ("from [{a = 1}, 2]", "from [{a = 1}, \"x\"]", "from [{a = 1}, [2]]"):
+        add("N13:row", "compile", src, target="sql.generic")
     # F29 (456bdcd), lowering / from_text panics (7911778, 287b286, 8204886): the programs are in c12_streams.EXTRA_PROGRAMS
     # C12-N5 (222f71a): i64::MIN under a negation -- PL from JSON (constant folding) ...
     w5 = harness("pl", [{"src": "from t | window rows:-1..1 (derive {s = sum b})"}])[0]
@@ -325,4 +329,24 @@ def directed_cases(ck):
             add("fixed:N6:tid", "json_rq", json.dumps(d), target="sql.generic", prog="from t | take 5")
             d, _, _ = rename_ids(b5["ok"], {0: big}, {})
             add("fixed:N6:cid", "json_rq", json.dumps(d), target="sql.generic", prog="from t | take 5")
+    return out
+
+
+
+def open_hang_cases():
+    """replays of the OPEN findings whose symptom is a hang (C12-H3, C12-H4): few, probed with their own small cap and
+    without the second look of probe_confirmed (their cost is exponential: 1.8^depth)"""
+    out = []
+
+    def add(fam, entry, src):
+        out.append({"entry": entry, "src": src, "stack_mb": 64, "family": fam, "prog": None})
+
+    # C12-H3: nested named arguments -- VALID programs
+    add("H3:named-args:40", "pl", "from t | derive x = " + "(f x:" * 40 + "1" + ")" * 40)
+    add("H3:named-args:16", "pl", "from t | derive x = " + "(f x:" * 16 + "1" + ")" * 16)       # seconds, not a hang: the slow criterion
+    # C12-H4: unclosed parenthesis behind an operator that also has a prefix form
+    add("H4:plus:40", "pl", "from t | derive x = " + "(a + (" * 40)
+    add("H4:alias:40", "pl", "from t | derive x = " + "(a = (" * 40)
+    add("H4:eq:40", "compile", "from t | filter " + "(a == (" * 40)
+    out[-1]["target"] = "sql.generic"
     return out
